@@ -189,6 +189,8 @@ func init() {
 						emit(t[:k]+t[k+1:k+2]+t[k:k+1]+t[k+2:], "transpose")
 					}
 					emit(t[:k]+prng.Pick(r, nonAlpha)+t[k+1:], "non-alphabet-char")
+					// a multi-byte character whose code point is the alphabet character plus a multiple of 256
+					emit(t[:k]+string(rune(int(t[k])+0x100*(1+r.Intn(255))))+t[k+1:], "non-alphabet-char")
 				}
 				for a := 0; a < len(refaddr.Alphabet); a++ {
 					emit(t[:k]+refaddr.Alphabet[a:a+1]+t[k:], "insert")
